@@ -5,6 +5,6 @@ for x in A B C; do
   slug=$1; shift
   [ -z "$slug" ] && continue
   [ "$slug" = "-" ] && continue
-  echo "python3 /verif/tools/confirmseed.py /tmp/seedwt/$id/_seed/$x $id-$r$x-$slug $checks" > /var/tmp/cq/jobs/$(date +%s%N)-$id-$x
+  echo "python3 /verif/tools/confirmseed.py ${SEEDWT:-/tmp/seedwt}/$id/_seed/$x $id-$r$x-$slug $checks" > /var/tmp/cq/jobs/$(date +%s%N)-$id-$x
   sleep 0.01
 done
